@@ -195,6 +195,29 @@ func (c *Ctx) role0(name string) *ssa.Function {
 		if len(found) == 1 {
 			return found[0]
 		}
+		// the block written through a context object (a small struct holding the source buffer and a
+		// sticky error) instead of a writer: an unexported File method with exactly one parameter, a
+		// pointer to a struct of the module, called by File.Render, that reads the import table
+		found = nil
+		for _, cal := range c.calleesWithin(c.method("File", "Render"), 2) {
+			if cal.Parent() != nil || !isFileMethod(c, cal) || isExportedName(cal.Name()) || cal.Signature.Params().Len() != 1 || cal.Signature.Results().Len() > 1 || !readsImports(cal) {
+				continue
+			}
+			if ctxStructParam(cal.Signature.Params().At(0).Type()) {
+				dup := false
+				for _, x := range found {
+					if x == cal {
+						dup = true
+					}
+				}
+				if !dup {
+					found = append(found, cal)
+				}
+			}
+		}
+		if len(found) == 1 {
+			return found[0]
+		}
 		// the block returned as text instead of written: a File method without parameters, returning
 		// a string (and possibly an error), that reads the import table
 		found = nil
@@ -425,6 +448,10 @@ func (c *Ctx) ff0(role string) string {
 							if fl := fieldOf(st.Addr); strings.HasPrefix(fl, "jen.File.") {
 								return strings.TrimPrefix(fl, "jen.File.")
 							}
+							// a field of a struct held by value in the File (f.doc.headers)
+							if fp := fileFieldPath(st.Addr); fp != "" {
+								return fp
+							}
 						}
 					}
 				}
@@ -512,4 +539,45 @@ func (c *Ctx) setExtra(k string, v interface{}) {
 		c.memo = map[string]interface{}{}
 	}
 	c.memo[k] = v
+}
+
+// ctxStructParam: a pointer to a struct type declared in the module (a context object).
+func ctxStructParam(t types.Type) bool {
+	pt, ok := t.Underlying().(*types.Pointer)
+	if !ok {
+		return false
+	}
+	n, ok := pt.Elem().(*types.Named)
+	if !ok || n.Obj().Pkg() == nil || !strings.HasPrefix(n.Obj().Pkg().Path(), modulePath) {
+		return false
+	}
+	_, isStruct := n.Underlying().(*types.Struct)
+	return isStruct
+}
+
+// fileFieldPath: for the address of a field reached from a *File through structs held by value
+// (f.doc.headers), the dotted path below the File ("doc.headers"); "" otherwise.
+func fileFieldPath(addr ssa.Value) string {
+	path := ""
+	cur := addr
+	for {
+		fa, ok := cur.(*ssa.FieldAddr)
+		if !ok {
+			break
+		}
+		name := fieldName(fa.X.Type(), fa.Field)
+		if path == "" {
+			path = name
+		} else {
+			path = name + "." + path
+		}
+		cur = fa.X
+	}
+	if path == "" || !strings.Contains(path, ".") {
+		return ""
+	}
+	if types.TypeString(cur.Type(), shortQual) != "*jen.File" {
+		return ""
+	}
+	return path
 }
